@@ -36,18 +36,32 @@ HANG_TIMEOUT = 3
 PINNED_STOP = '                if [[ $literal == $subword* ]]; then\n                    break 2\n'
 FIXED_STOP = ('                if [[ $mode = complete && -v "state_transitions[$literal_id]" && $literal == $subword* ]]; then\n'
               '                    break 2\n')
+PINNED_CSTOP = '                        if [[ $candidate == $subword* ]]; then\n                            break 3\n'
+FIXED_CSTOP = '                        if [[ $mode = complete && $candidate == $subword* ]]; then\n                            break 3\n'
 
 
 def detect_variant(script):
-    """Which within-word literal loop does this script contain?  A script without within-word code has
-    no loop at all: both models coincide there ('pinned' is returned)."""
+    """Which within-word matching loop does this script contain?  'pinned' = the template of /repo when the
+    model was written, 'fixed' = the repair proposed in REPORT-bashsem.md (stop tests only when completing, literal
+    stop test only for literals with a transition).  A script without within-word code has no such loop: both
+    models coincide there ('pinned' is returned).  None = neither (the template changed: broken tie)."""
     if '_subword () {' not in script:
         return 'pinned'
-    if FIXED_STOP in script:
+    has_cmds = 'for candidate in "${decreasing_length[@]}"; do\n                        if [[ $candidate == $subword ]]' in script
+    if FIXED_STOP in script and (not has_cmds or FIXED_CSTOP in script):
         return 'fixed'
-    if PINNED_STOP in script:
+    if PINNED_STOP in script and (not has_cmds or PINNED_CSTOP in script):
         return 'pinned'
     return None
+
+
+def template_status():
+    """T3: translator/bash_templates.py status of paths.REPO's bash.rs against the committed lock."""
+    import importlib.util
+    spec = importlib.util.spec_from_file_location('bash_templates', os.path.join(paths.ROOT, 'translator', 'bash_templates.py'))
+    mod = importlib.util.module_from_spec(spec)
+    spec.loader.exec_module(mod)
+    return mod.status(paths.REPO)
 
 
 def probe_ids(tables_sx):
